@@ -111,7 +111,7 @@ where
         max_poly_degree: usize,
     ) -> Result<Self, VerifierError> {
         // infer evaluation domain info
-        let domain_size = max_poly_degree.next_power_of_two() * options.blowup_factor();
+        let domain_size = (max_poly_degree + 1).next_power_of_two() * options.blowup_factor();
         let domain_generator = E::BaseField::get_root_of_unity(domain_size.ilog2());
 
         let num_partitions = channel.read_fri_num_partitions();
@@ -164,8 +164,9 @@ where
     /// Returns size of the domain over which a polynomial commitment checked by this verifier
     /// has been evaluated.
     ///
-    /// The domain size can be computed by rounding `max_poly_degree` to the next power of two
-    /// and multiplying the result by the `blowup_factor` from the protocol options.
+    /// The domain size can be computed by rounding `max_poly_degree + 1` (the number of
+    /// coefficients) up to the next power of two and multiplying the result by the
+    /// `blowup_factor` from the protocol options.
     pub fn domain_size(&self) -> usize {
         self.domain_size
     }
